@@ -146,34 +146,40 @@ def lean_phase(pid, tier, log):
     if not os.path.exists(props):
         res['wall_s'] = time.time() - t0
         return res
-    # (re)build the property's module and what it imports; a proof that no longer terminates counts as broken
+    # a property may have further theorem files Props/Cxx_<Name>.lean (e.g. global statements that import the lemma files)
+    import glob
+    extra = sorted(glob.glob(os.path.join(LEAN, 'Wal', 'Props', f'{pid}_*.lean')))
+    modules = [f'Wal.Props.{pid}'] + ['Wal.Props.' + os.path.basename(x)[:-5] for x in extra]
+    # (re)build the property's modules and what they import; a proof that no longer terminates counts as broken
     try:
-        rc, out = sh(['lake', 'build', f'Wal.Props.{pid}'], cwd=LEAN, timeout=PROOF_TIMEOUT)
+        rc, out = sh(['lake', 'build'] + modules, cwd=LEAN, timeout=PROOF_TIMEOUT)
     except subprocess.TimeoutExpired:
-        rc, out = 1, f'timeout ({PROOF_TIMEOUT}s) building Wal.Props.{pid}'
+        rc, out = 1, f'timeout ({PROOF_TIMEOUT}s) building {modules}'
     if rc != 0:
         bad = re.findall(r'^error: (\S+\.lean:\d+:\d+: .*)$', out, re.M)[:10]
         res['ok'] = False
         res['failures'].append({'stage': 'build-props', 'detail': bad or out[-2000:]})
-        res['obligations'] = len(theorems_of(props))
+        res['obligations'] = sum(len(theorems_of(x)) for x in [props] + extra)
         res['wall_s'] = time.time() - t0
         return res
-    # re-elaborate the property's own file on every run
-    try:
-        rc, out = sh(['lake', 'env', 'lean', props], cwd=LEAN, timeout=PROOF_TIMEOUT)
-    except subprocess.TimeoutExpired:
-        rc, out = 1, f'timeout ({PROOF_TIMEOUT}s) elaborating {props}'
-    if rc != 0 or re.search(r'^\S+: error', out, re.M) or 'declaration uses `sorry`' in out:
-        res['ok'] = False
-        res['failures'].append({'stage': 'elaborate', 'file': props, 'detail': out[-3000:]})
-    names = theorems_of(props)
+    # re-elaborate the property's own files on every run
+    for pf in [props] + extra:
+        try:
+            rc, out = sh(['lake', 'env', 'lean', pf], cwd=LEAN, timeout=PROOF_TIMEOUT)
+        except subprocess.TimeoutExpired:
+            rc, out = 1, f'timeout ({PROOF_TIMEOUT}s) elaborating {pf}'
+        if rc != 0 or re.search(r'^\S+: error', out, re.M) or 'declaration uses `sorry`' in out:
+            res['ok'] = False
+            res['failures'].append({'stage': 'elaborate', 'file': pf, 'detail': out[-3000:]})
+    names = [nm for x in [props] + extra for nm in theorems_of(x)]
     res['obligations'] = len(names)
     res['partial'] = [n for n in names if n.endswith('_partial')]
     # axiom audit
     audit = os.path.join(LEAN, '.lake', f'audit_{pid}.lean')
     os.makedirs(os.path.dirname(audit), exist_ok=True)
     with open(audit, 'w') as f:
-        f.write(f'import Wal.Props.{pid}\n')
+        for m in modules:
+            f.write(f'import {m}\n')
         for nm in names:
             f.write(f'#print axioms {nm}\n')
     rc, out = sh(['lake', 'env', 'lean', audit], cwd=LEAN)
@@ -203,7 +209,7 @@ def lean_phase(pid, tier, log):
             res['ok'] = False
             res['failures'].append({'stage': 'grep', 'file': p, 'detail': m.group(0)})
     if tier == 'thorough':
-        rc, out = sh(['lake', 'env', 'leanchecker', f'Wal.Props.{pid}'], cwd=LEAN, timeout=3000)
+        rc, out = sh(['lake', 'env', 'leanchecker'] + modules, cwd=LEAN, timeout=3000)
         res['leanchecker'] = 'ok' if rc == 0 else out[-1500:]
         if rc != 0:
             res['ok'] = False
